@@ -46,7 +46,9 @@ func intarithOf(c *engine.Context) *intarithResult {
 				res.problems = append(res.problems, load.FuncName(fn)+": "+pr)
 			}
 		}
-		sort.Slice(res.obls, func(i, j int) bool { return res.obls[i].Rule+res.obls[i].Construct < res.obls[j].Rule+res.obls[j].Construct })
+		sort.Slice(res.obls, func(i, j int) bool {
+			return res.obls[i].Rule+res.obls[i].Construct < res.obls[j].Rule+res.obls[j].Construct
+		})
 		return res
 	}).(*intarithResult)
 }
